@@ -139,9 +139,11 @@ fn gen(tier: &str, seed: u64, out: &mut dyn FnMut(String)) {
     }
 
     // (iii) seeded random stream beyond the small scope: lengths to 400 (quick) / 2000 (thorough)
-    let (n_rand, max_n) = if thorough { (220, 2000) } else { (40, 400) };
+    //       (the list-backed model is quadratic in the lane length, so most lanes stay below half the maximum and
+    //        every 7th one sits at the maximum)
+    let (n_rand, max_n) = if thorough { (168, 2000) } else { (40, 400) };
     for i in 0..n_rand {
-        let n = if i % 5 == 0 { max_n - rng.below(8) } else { 131 + rng.below(max_n - 130) };
+        let n = if i % 7 == 0 { max_n - rng.below(8) } else { 131 + rng.below(max_n / 2 - 130) };
         let p = if i % 3 == 0 { 5 } else { rng.below(9) };
         let mut v = pattern(p, n, &mut rng);
         if i % 4 == 1 { let k = 1 + rng.below(6) as i64; for x in v.iter_mut() { *x = x.rem_euclid(k); } }   // duplicate-heavy
@@ -151,8 +153,8 @@ fn gen(tier: &str, seed: u64, out: &mut dyn FnMut(String)) {
             let sp = spellings(k);
             out(format!("sort {a} none {}", sp[rng.below(sp.len())]));
         }
-        out(format!("sort {a} 0 e:Stable"));
-        if n <= 600 || i % 10 == 0 { out(format!("argsort {a} none {}", enum_kinds[i % 4])); }
+        if n <= 1000 { out(format!("sort {a} 0 e:Stable")); }
+        if n <= 1000 || i % 14 == 0 { out(format!("argsort {a} none {}", enum_kinds[i % 4])); }
         out(format!("argmax {a} none none")); out(format!("argmin {a} none none")); out(format!("unique {a} none"));
     }
     // random small lanes, all queries
